@@ -3,7 +3,7 @@ import steps_C10
 
 ID = "C10"
 PROP = {
-    "modules": ["Gnmi.Props.C10"],
+    "modules": ["Gnmi.Props.C10", "Gnmi.Props.C10Safe"],
     "theorems": ["Gnmi.C10." + t for t in [
         "frozen_ancestors", "locks_form_a_path", "write_lock_exclusive",
         "add_linearises", "add_keeps_others", "leaf_stable",
@@ -12,7 +12,15 @@ PROP = {
         "query_stability", "query_reports_sound", "query_returns",
         "qmust_at_invoke", "qmay_at_invoke", "qmust_later", "qmay_later",
         "race_free", "race_witness_prefix", "race_free_false_before_fix",
-        "mutant_loses_leaf", "mutantTrace_not_real"]],
+        "mutant_loses_leaf", "mutantTrace_not_real"]] + ["Gnmi.C10Safe." + t for t in [
+        # extended LTS (Model/CTreeConcX.lean): panic outcomes, RWMutex writer preference, node reads
+        "never_panics", "no_panic_enabled", "never_panics_fails_without_recheck",
+        "lock_order", "no_recursive_rlock", "no_recursive_rlock_node",
+        "no_deadlock_wp", "deadlock_with_recursive_rlock",
+        "persistence", "every_step_decreases", "runs_terminate", "every_op_completes", "op_returns",
+        "walk_call", "walk_reports_sound", "walk_complete", "qmay_stutter", "qmay_at_walk",
+        "children_on_branch_races"]] + ["Gnmi.CX." + t for t in [
+        "reach_base", "step_base", "xinv_reach", "no_panic", "xprogress", "rank_step"]],
     "pre": [steps_C10.hook_probe, steps_C10.lock_facts],
     "components": [
         {"c": "cc", "quick": {"n": 600, "exhaustive": True},
@@ -30,7 +38,12 @@ PROP = {
     "trusted_base": COMMON_TB + [
         "Go memory model below lock granularity and pre-emption inside critical sections: validated with -race and "
         "history monitors, not proved (the theorems are about the locking protocol LTS)",
-        "sync.RWMutex modelled as: write lock grantable iff no other holder, read lock iff no other writer",
+        "sync.RWMutex modelled as: write lock grantable iff no other holder, read lock iff no other writer (base LTS); in the "
+        "extended LTS additionally: Lock() = announce + acquire, RLock() refused while another thread has announced a Lock() on that "
+        "mutex (every announced writer bars readers; Go queues further writers on rw.w, which only blocks less)",
+        "extended LTS: the per-node RLock/RUnlock pairs inside internalDelete are part of the one atomic delete transition "
+        "(enabled only when no Leaf.Update is announced on a node it reads); Walk/WalkSorted visit children in the model trie's "
+        "list order (the order is not part of the locking protocol)",
         "the schedule point ctree.add.upgrade (build tag verif) is where the harness parks goroutines; the other "
         "atomic-section boundaries of the LTS are exercised only by the free-running stress",
         "the Go-side history monitors (linearizability search, query stability) are the harness's own code",
@@ -40,6 +53,9 @@ PROP = {
         "Leaf handles are retained for non-root leaf nodes only (GetLeaf on a leaf, the *Leaf of a visit callback); "
         "Value/IsBranch/Children on retained branch nodes are outside the model",
         "visit callbacks do not call back into the tree",
+        "Children() on a retained non-root branch node concurrently with deletes was a genuine defect (finding D27, witness C10Safe.children_on_branch_races "
+        "over the pre-fix access sets, confirmed with go test -race): internalDelete changed a non-root node's child map under the root lock only; repaired in "
+        "/repo by fix 8e5fd17 (proposed_fixes/ctree_children_vs_delete.diff); the stress now calls Children on retained branch nodes in every round, with deletes",
     ],
     "manifest": {
         "level_text": "Lean 4 theorems over a labelled transition system of ctree's locking protocol (any number of threads, any "
@@ -48,7 +64,15 @@ PROP = {
                       "the reader->writer upgrade window; leaf_stable: concurrent adds beneath a new branch all survive), "
                       "delete_atomic, linearizable_point_ops (trie = sequential replay of the linearisation log, per-thread "
                       "program order, returned result = logged result), race_free (every conflicting access pair shares a lock; "
-                      "race_witness_prefix: it did not before the repair of D15), no_deadlock, query_stability, mutant_loses_leaf (without the re-check a leaf is lost). Tied to the code "
+                      "race_witness_prefix: it did not before the repair of D15), no_deadlock, query_stability, mutant_loses_leaf (without the re-check a leaf is lost). "
+                      "Extended LTS (Props/C10Safe.lean: explicit panic outcomes, sync.RWMutex writer preference with announced Lock(), "
+                      "Walk/WalkSorted, root IsBranch/Value/Children, Value/IsBranch/Children/Leaf.Value on leaf nodes; every run projects "
+                      "to a run of the base LTS, reach_base): never_panics (no reachable panic outcome; fails without the re-examination "
+                      "after the lock upgrade: never_panics_fails_without_recheck), lock_order + no_recursive_rlock (locks are requested "
+                      "parent before child, never a read lock on a mutex already held; the recursive RLock of seeded change c10_seed7 gives "
+                      "a reachable stuck configuration: deadlock_with_recursive_rlock), no_deadlock_wp (no stuck configuration under writer "
+                      "preference), persistence + every_step_decreases + runs_terminate + every_op_completes (lexicographic variant: every "
+                      "started operation returns, no livelock), walk_reports_sound / walk_complete. Tied to the code "
                       "by regenerated lock-pattern facts, deterministic forced-window schedules on the real goroutines, seeded "
                       "free-running stress with history monitors, and -race runs.",
         "level_note": "PARTIAL: proof of the locking protocol LTS; Go's memory model below lock granularity and pre-emption inside "
